@@ -139,6 +139,23 @@ def rule_close(ctx):
     check_detach(ctx, "C14.CLOSE")
 
 
+def rule_shield(ctx):
+    p = ctx.p
+    ctx.rule("C14.SHIELD", "the data-connection wait never cancels the session's presence futures: the awaited aggregate is shielded and nothing in the guard cancels it")
+    w = p.wrapper_of("ConnectionConditions")
+    waits = [c for c in walk_no_nested(w) if isinstance(c, ast.Call) and (dotted(c.func) or "").endswith("wait_for")]
+    ok = bool(waits)
+    for c in waits:
+        a = expand(p, c.args[0], w) if c.args else None
+        ok = ok and isinstance(a, ast.Call) and (dotted(a.func) or "").endswith("shield")
+    ctx.ob("C14.SHIELD", w, "the guard awaits wait_for(shield(<aggregate>), timeout)", ok,
+           "the guard's wait is not shielded: cancelling the waiting worker (ABOR) cancels the session's presence futures", construct="guard:no shield")
+    cancels = [c for c in walk_no_nested(w) if isinstance(c, ast.Call) and is_method_call(c, "cancel")]
+    ctx.ob("C14.SHIELD", cancels[0] if cancels else w, "nothing in the guard calls cancel()", not cancels,
+           f"the guard calls `{src(cancels[0]) if cancels else ''}`: cancelling the gathered aggregate cancels the session's own presence futures (e.g. data_connection), "
+           "so after an ABOR during the wait the next PASV/transfer fails inside the dispatcher", construct="guard:cancels aggregate")
+
+
 def rule_exit(ctx):
     p = ctx.p
     ctx.rule("C14.EXIT", "the data stream's context exit and close() never suspend: the cancellation path of an aborted transfer cannot wait on the peer")
@@ -182,4 +199,4 @@ def rule_cli(ctx):
            "the client's waiting ABOR does not expect 226 while waiting through 426", construct="abort:masks")
 
 
-RULES = [rule_outer, rule_abor, rule_done, rule_close, rule_exit, rule_cli]
+RULES = [rule_outer, rule_abor, rule_done, rule_close, rule_exit, rule_shield, rule_cli]
